@@ -345,7 +345,7 @@ fn enumerate_strings<W: Write>(alphabet: &[&str], max_len: usize, out: &mut W) {
 /// every prefix of `s` followed by one probe character (line terminators, blanks, NUL, DEL, non-ASCII, a
 /// letter and a punctuation mark that start nothing): the first offending character at every position
 fn probe_prefixes<W: Write>(s: &str, out: &mut W) {
-    const PROBES: &[char] = &['\n', '\r', '\t', ' ', '\u{0}', '\u{7f}', '\u{e9}', '\u{2028}', 'x', '!', ')', ']'];
+    const PROBES: &[char] = &['\n', '\r', '\t', ' ', '\u{0}', '\u{7f}', '\u{e9}', '\u{2028}', 'x', '!', ')', ']', '\u{feff}', '\u{200b}', '\u{a0}'];
     let cs: Vec<char> = s.chars().collect();
     for i in 0..=cs.len() {
         let p: String = cs[..i].iter().collect();
@@ -362,6 +362,21 @@ fn read_suite<W: Write>(t: &Tables, thorough: bool, rng: &mut Rng, out: &mut W) 
     for s in CORPUS_STRINGS { read_req(out, s) }
     for s in CORPUS_STRINGS { probe_prefixes(s, out) }
     for s in ["[13C@TB12H2+2:7]C%12(=O)/C=C\\C%12", "[C@OH25H-15:123]=1.[nH+]$1", "[Cl@SP2-]", "[se@AL1]", "[Uue@@H9++]"] { probe_prefixes(s, out) }
+    // characters a text pipeline may add, drop or normalise (byte-order mark, zero-width and no-break spaces, directional
+    // marks, line and paragraph separators, NEL, VT, FF, replacement character, fullwidth and combining forms): before, after
+    // and inside otherwise valid strings, once and doubled — none of them belongs to any sentence
+    for ch in ['\u{feff}', '\u{200b}', '\u{200c}', '\u{200d}', '\u{2060}', '\u{a0}', '\u{202f}', '\u{200e}', '\u{200f}', '\u{2028}', '\u{2029}',
+               '\u{85}', '\u{b}', '\u{c}', '\u{1}', '\u{1b}', '\u{fffd}', '\u{ffff}', '\u{10ffff}', '\u{301}', '\u{ff23}', '\u{430}', '\u{421}'] {
+        for v in ["C", "C1CC1", "[13CH4]", "C(=O)O", "c1ccccc1", "[Na+].[Cl-]"] {
+            let cs: Vec<char> = v.chars().collect();
+            read_req(out, &format!("{}{}", ch, v));
+            read_req(out, &format!("{}{}{}", ch, ch, v));
+            read_req(out, &format!("{}{}", v, ch));
+            let mid: String = cs[..1].iter().chain(std::iter::once(&ch)).chain(cs[1..].iter()).collect();
+            read_req(out, &mid);
+        }
+        read_req(out, &ch.to_string());
+    }
     // every combination of bond symbols on the two ends of a ring closure (8 x 8), on distant, adjacent and dot-separated
     // atoms, with one- and two-digit numbers, and with the closing digit after a branch
     let syms = ["", "-", "=", "#", "$", ":", "/", "\\"];
